@@ -5,6 +5,7 @@ import (
 	"fmt"
 	"time"
 
+	"github.com/gorilla/websocket"
 	"pgregory.net/rapid"
 
 	"verifharness/wsref"
@@ -21,7 +22,7 @@ type WFaultCase struct {
 	OnlyKind string `json:"only_kind,omitempty"`
 }
 
-var wfaultKinds = []string{xport.FaultError, xport.FaultTimeout, xport.FaultShort, xport.FaultTemporary, xport.FaultShortTemporary}
+var wfaultKinds = []string{xport.FaultError, xport.FaultTimeout, xport.FaultShort, xport.FaultTemporary, xport.FaultShortTemporary, xport.FaultFullErr}
 
 func genWFaultCase(t *rapid.T) WFaultCase {
 	var c WFaultCase
@@ -96,6 +97,30 @@ func checkC10(c WFaultCase, o *Obs) error {
 			}
 		}
 	}
+	// ---- an application write deadline that has expired, set before step j, on a
+	// transport that honours deadlines: the first frame written under it times
+	// out, and that is a transport failure like any other
+	if c.OnlyK < 0 {
+		for j := 0; j < len(c.Steps); j++ {
+			if c.Steps[j].Op == "deadline" {
+				continue
+			}
+			steps := append(append(append([]WStep(nil), c.Steps[:j]...), WStep{Op: "deadline", Deadline: -1}), c.Steps[j:]...)
+			// later deadline steps would re-arm the transport: the application
+			// of this scenario sets the expired one last
+			for i := j + 1; i < len(steps); i++ {
+				if steps[i].Op == "deadline" {
+					steps[i].Deadline = -1
+				}
+			}
+			c2 := c
+			c2.Steps = steps
+			o.Evals(1)
+			if err := runWFault(c2, -1, "expired-deadline", nil, o); err != nil {
+				return fmt.Errorf("expired write deadline set before step %d on a transport that honours deadlines: %w", j, err)
+			}
+		}
+	}
 	return nil
 }
 
@@ -143,10 +168,20 @@ func runWFault(c WFaultCase, k int, kind string, wire0 []byte, o *Obs) error {
 	if err != nil {
 		return err
 	}
-	tr.SetWriteFault(&xport.WriteFault{K: k, Kind: kind})
+	if k >= 0 {
+		tr.SetWriteFault(&xport.WriteFault{K: k, Kind: kind})
+	} else {
+		tr.HonourWriteDeadline = true
+	}
 	tw := RunWrite(conn, tr, c.Steps, c.W.Compress)
 	if !tr.WriteFaultFired() {
+		if k < 0 {
+			return nil // nothing was written under the expired deadline (only WriteControl calls with their own deadlines, or nothing at all)
+		}
 		return fmt.Errorf("harness: fault did not fire (program is not deterministic in its transport operations)")
+	}
+	if k < 0 {
+		k = tr.FiredAtOp
 	}
 	// (a) what was accepted is a valid frame sequence + at most one truncated frame
 	frames, consumed, derr := wsref.DecodeFrames(tr.Wrote, !c.W.Server)
@@ -157,8 +192,29 @@ func runWFault(c WFaultCase, k int, kind string, wire0 []byte, o *Obs) error {
 		return fmt.Errorf("frames accepted before the fault violate message framing: %v", aerr)
 	}
 	_ = consumed
-	if c.W.Server && !bytes.HasPrefix(wire0, tr.Wrote) {
+	if c.W.Server && wire0 != nil && !bytes.HasPrefix(wire0, tr.Wrote) {
 		return fmt.Errorf("bytes accepted before the fault (%d) are not a prefix of the fault-free stream (differs at %d)", len(tr.Wrote), firstDiff(tr.Wrote, wire0))
+	}
+	// epilogue: what an application does when it notices the failure - it tries
+	// to say goodbye, possibly twice (its own close, then a deferred one); all
+	// of it must fail and write nothing
+	epilogue := []struct {
+		api string
+		f   func() error
+	}{
+		{"WriteControl(close)", func() error {
+			return conn.WriteControl(websocket.CloseMessage, websocket.FormatCloseMessage(1001, ""), time.Now().Add(time.Hour))
+		}},
+		{"WriteControl(close) again", func() error {
+			return conn.WriteControl(websocket.CloseMessage, websocket.FormatCloseMessage(1000, ""), time.Time{})
+		}},
+		{"WriteMessage(close)", func() error { return conn.WriteMessage(websocket.CloseMessage, websocket.FormatCloseMessage(1000, "")) }},
+		{"WriteMessage(text)", func() error { return conn.WriteMessage(websocket.TextMessage, []byte("late")) }},
+	}
+	for _, e := range epilogue {
+		if err := e.f(); err == nil {
+			return fmt.Errorf("%s after the program succeeded although a transport operation had failed earlier", e.api)
+		}
 	}
 	// (b) nothing is written after the fault
 	if len(tr.AfterFault) > 0 {
